@@ -214,7 +214,7 @@ def judge_negative(m, v, case):
 
 FLAGS = docprop.FLAGS
 neg_run, neg_replay = docprop.make(ID, judge_negative, lambda m, v: False,
-                                   lambda m, v: ['well-formed (negative half)'], quick=12000, thorough=300000)
+                                   lambda m, v: ['well-formed (negative half)'], quick=12000, thorough=100000)
 
 
 def replay(case):
@@ -259,4 +259,4 @@ def run_shard(ctx):
         ctx.stats.case(key=m.source(), nontrivial=nt,
                        classes=['fault:' + info['kind']] + (['fault-within-14-chars-of-end'] if near_end else []),
                        sample={'src': m.source()[len(docgen.PREAMBLE):], 'fault': info['kind'], 'fault_offset': info['off'] + 1})
-    hyp_run(ctx, case_s, positive, ctx.n(30000, 600000), seed=ctx.shard_seed + 500)
+    hyp_run(ctx, case_s, positive, ctx.n(30000, 200000), seed=ctx.shard_seed + 500)
